@@ -3,6 +3,14 @@
 import json, os
 V = os.path.dirname(os.path.abspath(__file__))
 CHECKS = {
+ "C16": dict(
+  text="Randomised search (rapid) over generated Go packages of annotated model types (type grammar: every basic kind, time.Time, interface{}, []byte, pointers, slices, arrays, string-keyed maps, models by value / pointer / slice / map, anonymous structs, named types and aliases, embedded structs, json tags rename / omitempty / '-' / ',string', unexported and ignored fields). The package is scanned in-process by codescan.Run and compiled into a reflection harness. Oracle 1: json.Marshal of the zero, the fully and the half populated value of every model validates against the scanned definition (double oracle: self-written validator and go-openapi/validate must both reject). Oracle 2: the required-only and the all-properties document built from the scanned definition decodes into the type. Two defects repaired (fix: commits), four root causes listed as known findings.",
+  note="null (nil pointer / slice / map / interface) is left out of the comparison because Swagger 2.0 cannot express it; canonical documents use small integers, so overflow of narrow integer kinds is not probed; the scanner runs with gotypesalias=0 like the binary built from the tree (go 1.21 module).",
+  tech="property-based testing (rapid): program generation + round-trip / differential oracle between encoding/json and the scanned schema"),
+ "C07": dict(
+  text="Randomised search (rapid) over batches of 2-4 generation jobs (server / client / model / cli / markdown with option subsets) on 2-3 distinct specs plus a random subset of {flatten, flatten full as YAML, expand, mixin, diff, diff -f json, generate spec over generated models}. Every job and command runs 3 times in new processes (fresh hash seeds) with the binary built from the tree; outputs are compared byte by byte. In 60% of the cases all jobs also run at once in one process through the exported command structs (helper program built with -race): the race detector must stay silent, no job may fail that succeeds alone, and each target tree must equal the one produced alone. Four defects found and repaired (fix: commits); one listed known finding (expand on self-referencing definitions).",
+  note="All targets of a run live in one module and every process works from the module root (import resolution of generated code depends on both, they are inputs); three repetitions bound the detection probability of a rarely-showing order dependence per case; concurrency is explored by the Go scheduler, not by a controlled schedule.",
+  tech="property-based testing (rapid): repeat-run differential over generated inputs + concurrent in-process batch under the race detector"),
  "C11": dict(
   text="Randomised search (rapid) over histories of 3-10 events on one target directory, executed with the swagger binary built from the tree: generate {server, client, model, support, operation} with option subsets (tag layout, --regenerate-configureapi, --exclude-*, --skip-*, flatten mode, strict responders), the spec evolving between runs (operations, parameters, responses, properties dropped or added; every evolution followed by a regeneration), the user appending to configure_<app>.go and adding / editing own files inside generated package directories. Oracle after every run: user files keep their bytes, an existing configure file is untouched unless --regenerate-configureapi, and every file the same command writes into an empty directory is present with identical bytes. One listed known finding (facade imports resolved against stale packages).",
   note="A difference only counts when none of four fresh generations reproduces the bytes found in the target (generator output that is not repeatable is C07's subject); a run that exits non-zero is only required to leave user files alone.",
